@@ -145,6 +145,10 @@ def gen_sp_program3(rng):
         prog += [['sp_begin'], ['set', 0, e, {'a': val + 1}], ['flush']]
         if rng.random() < 0.3:
             prog += [['set', 0, e, {'b': val}], ['flush']]
+        if rng.random() < 0.25:
+            # the savepoint is RELEASED, then the whole transaction is rolled back and the session goes on
+            prog += [['sp_release'], ['rollback'], ['set', 0, e, {'a': val + 2}], ['commit']]
+            continue
         prog.append(['sp_rollback'])
         prog.append(['set', 0, e, {'a': val + 1 if rng.random() < 0.6 else val + 2}])
         if rng.random() < 0.5:
@@ -212,6 +216,10 @@ def corpus():
             dict(kind='S', cfg=cfg, prog=[['add', 0, 1, {'a': 1}], ['add', 1, 1, {'a': 0}], ['commit'], ['set', 1, 1, {'a': 2}], ['flush'],
                                           ['sp_begin'], ['set', 0, 1, {'a': 3}], ['flush'], ['sp_rollback'], ['set', 0, 1, {'a': 4}],
                                           ['commit']]),
+            # a released savepoint, then the outer transaction rolled back, then the session goes on
+            dict(kind='S', cfg=cfg, prog=[['add', 0, 1, {'a': 1}], ['add', 0, 2, {'a': 1}], ['commit'], ['set', 0, 1, {'a': 2}], ['flush'],
+                                          ['sp_begin'], ['set', 0, 2, {'a': 2}], ['flush'], ['sp_release'], ['rollback'],
+                                          ['set', 0, 1, {'a': 3}], ['commit'], ['set', 0, 2, {'a': 3}], ['commit']]),
             # a flush failing inside a savepoint after a versioned INSERT went through (F-C06-failed-flush-in-savepoint)
             dict(kind='S', cfg=cfg, prog=[['add', 0, 1, {'a': 1}], ['add', 3, 1, {'a': 0}], ['commit'], ['set', 0, 1, {'a': 2}],
                                           ['flush'], ['sp_begin'], ['sp_fail', 7, 1], ['set', 0, 1, {'a': 3}], ['commit']]),
